@@ -62,6 +62,16 @@ def run(chk: Check) -> None:
         for k, c in enumerate(q):
             steps.append({"argv": inc + [c], "fresh": k == 0, "keep_after": k == len(q) - 1, "cwd": "{work}"})
         scenarios.append({"id": f"C09-ign{i}", "files": ign_files, "steps": steps, "_v": v})
+    # a file no codemod can parse, next to files two codemods rewrite: every codemod of the batch reports it as failed,
+    # exactly as its own invocation does
+    bad_files = {"app.py": "x = set([1, 2])\nassert (1, 'm')\n\n\ndef f(v=[]):\n    return v\n", "legacy.py": "print \"item:\", item\n", "pkg/broken.py": "def broken(:\n    pass\n"}
+    for i, q in enumerate((["pixee:python/fix-mutable-params", "pixee:python/use-set-literal"], ["pixee:python/use-set-literal", "pixee:python/fix-assert-tuple", "pixee:python/fix-mutable-params"])):
+        v = {"program": "unparseable-files", "layout": "lf", "manifest": "none", "queue": q, "dryRun": False, "workers": 1}
+        inc = ["{dir}", "--output", "{out}", "--codemod-include"]
+        steps = [{"argv": inc + [",".join(q)], "keep_after": True}]
+        for k, c in enumerate(q):
+            steps.append({"argv": inc + [c], "fresh": k == 0, "keep_after": k == len(q) - 1})
+        scenarios.append({"id": f"C09-bad{i}", "files": bad_files, "steps": steps, "_v": v})
     if not chk.quick:
         # the whole default selection over a project holding every program, against the chain of the same codemods
         files = {f"{name}/app.py": text for name, text in space.PROGRAMS.items()}
